@@ -33,6 +33,8 @@ SCHEMES = {
     "tuple": (VATTR, [{"order": (1.0, 2.0)}, {"order": (2.0, 1.0)}], ["element"]),
     "string": (VATTR, [{"order": "SINGLE"}, {"order": "DOUBLE"}], ["element"]),
     # label selections that leave the element out: nothing selected (skeleton only), charge only
+    # a selected label left out where it has its declared default (G2 omits charge 0, G1 writes it)
+    "sparse_charge": ([{"element": "O", "charge": 0}, {"element": "O", "charge": -1}, {"element": "C", "charge": 0}], EATTR, ["element", "charge"]),
     "skeleton": (VATTR, EATTR, []),
     "charge_only": ([{"element": "O", "charge": 0}, {"element": "N", "charge": 0}, {"element": "C", "charge": 1}], EATTR, ["charge"]),
 }
@@ -72,6 +74,9 @@ def gen_schemes(tier, seed):
     for a in reps:
         for b in lab:
             yield [eg.code_str(a), eg.code_str(b), "charge_only"]
+            yield [eg.code_str(a), eg.code_str(b), "sparse_charge"]
+            if len(a[0]) != len(b[0]):
+                yield [eg.code_str(b), eg.code_str(a), "sparse_charge"]
     reps = [c for n in (2, 3) for c in eg.representatives(n, 2, 2) if eg.n_edges(c) >= 1]
     lab = [c for n in (2, 3) for c in eg.all_labelled(n, 2, 2) if eg.n_edges(c) >= 1]
     for a in reps:
@@ -95,8 +100,11 @@ def gen_wc(tier, seed):
             yield [eg.code_str(b), eg.code_str(a), "wc"]
 
 
+DEFAULTS = {"element": "*", "charge": 0}
+
+
 def node_ok(p, h):
-    return all(p[a] == h[a] for a in NODE_ATTRS[0])
+    return all(p.get(a, DEFAULTS.get(a)) == h.get(a, DEFAULTS.get(a)) for a in NODE_ATTRS[0])
 
 
 def edge_ok(p, h):
@@ -144,6 +152,10 @@ def check(case):
     NODE_ATTRS[0] = nattrs
     G1 = eg.to_nx(ca, vattr, eattr, node_ids=list(range(1, len(ca[0]) + 1)))
     G2 = eg.to_nx(cb, vattr, eattr, node_ids=list(range(11, len(cb[0]) + 11)))
+    if kind == "sparse_charge":
+        for v in G2.nodes:
+            if G2.nodes[v].get("charge") == 0:
+                del G2.nodes[v]["charge"]
     wc = kind == "wc"
     P1, P2 = (prune(G1), prune(G2)) if wc else (G1, G2)
     fails = []
@@ -157,7 +169,7 @@ def check(case):
     maxm = {m for m in allm if len(m) == K}
     for mcs in (True, False):
         for pa in (False, True):
-            mt = M1(node_attrs=list(nattrs), edge_attrs=["order"], prune_wc=wc, prune_automorphisms=pa)
+            mt = M1(node_attrs=list(nattrs), node_defaults=[DEFAULTS.get(a, "*") for a in nattrs], edge_attrs=["order"], prune_wc=wc, prune_automorphisms=pa)
             mt.find_common_subgraph(G1, G2, mcs=mcs)
             ncalls += 1
             f = mt.get_mappings("G1_to_G2")
@@ -188,7 +200,7 @@ def check(case):
             if mt._last_size != (K if (mcs or f) else 0) and mcs:
                 fails.append(Fail("last_size", f"{key}: {mt._last_size}", str(K), key_extra=key))
     # one matcher object reused for another pair first, and the same graph object on both sides
-    mt = M1(node_attrs=list(nattrs), edge_attrs=["order"], prune_wc=wc)
+    mt = M1(node_attrs=list(nattrs), node_defaults=[DEFAULTS.get(a, "*") for a in nattrs], edge_attrs=["order"], prune_wc=wc)
     mt.find_common_subgraph(G2, G2, mcs=True)
     same = mt.get_mappings("G1_to_G2")
     ncalls += 1
@@ -201,7 +213,7 @@ def check(case):
         fails.append(Fail("matcher_reuse", f"M1 reused after another pair: {sorted(reused)}", f"{sorted(maxm)}"))
     # find_rc_mapping on graphs given directly (side='its'): component-wise pairing and whole-graph search, on a reused instance
     if not wc:
-        mt = M1(node_attrs=list(nattrs), edge_attrs=["order"])
+        mt = M1(node_attrs=list(nattrs), node_defaults=[DEFAULTS.get(a, "*") for a in nattrs], edge_attrs=["order"])
         mt.find_common_subgraph(G2, G1, mcs=True)
         mt.get_mappings("G1_to_G2"), mt.get_mappings("G2_to_G1")  # fill whatever the instance may keep
         for comp in (True, False):
@@ -219,7 +231,7 @@ def check(case):
                 elif not comp and mcs and {tuple(sorted(m.items())) for m in f} != maxm:
                     fails.append(Fail("maximum_set", f"{key}: {sorted(tuple(sorted(m.items())) for m in f)}", f"{sorted(maxm)}", key_extra=key))
     # molecule-level mode: whole components
-    mt = M1(node_attrs=list(nattrs), edge_attrs=["order"], prune_wc=wc)
+    mt = M1(node_attrs=list(nattrs), node_defaults=[DEFAULTS.get(a, "*") for a in nattrs], edge_attrs=["order"], prune_wc=wc)
     mt.find_common_subgraph(G1, G2, mcs_mol=True)
     ncalls += 1
     for m in mt.get_mappings("G1_to_G2"):
